@@ -27,7 +27,7 @@ sys.path.insert(0, HERE)
 import cxx2c
 import fpx
 
-CBMC_FLAGS = ['--bounds-check', '--pointer-check', '--div-by-zero-check', '--signed-overflow-check',
+CBMC_FLAGS = ['--no-malloc-may-fail', '--bounds-check', '--pointer-check', '--div-by-zero-check', '--signed-overflow-check',
               '--conversion-check', '--undefined-shift-check', '--pointer-overflow-check']
 MEM_LIMIT_KB = 24 * 1024 * 1024
 
@@ -191,7 +191,11 @@ def run_unit(unit, work, tier='quick'):
                              ['--function', harness, csrc, '-o', os.path.join(d, 'a.gb')], log=log)
         if rc != 0:
             raise Undecided('goto-cc failed: ' + (err or out)[-800:])
-        gi = ['goto-instrument', '--dfcc', harness]
+        if unit.get('add_library', True):
+            rc, out, err, _ = sh(['goto-instrument', '--no-malloc-may-fail', '--add-library', os.path.join(d, 'a.gb'), os.path.join(d, 'a.gb')], log=log, timeout=120)
+            if rc != 0:
+                raise Undecided('goto-instrument --add-library failed: ' + (err or out)[-600:])
+        gi = ['goto-instrument', '--no-malloc-may-fail', '--dfcc', harness]
         gi += ['--enforce-contract-rec' if unit.get('rec') else '--enforce-contract',
                '%s/%s__contract' % (unit['enforce'], unit['enforce'])]
         for r_ in unit.get('replace', []):
